@@ -240,7 +240,7 @@ pub fn dict_page_jobs(tier: &str, r: &mut Rng) -> Vec<(Args, String)> {
         if (1usize << bw) <= d || nvals < 32 { continue }
         // KNOWN-FINDING candidate: for a FIXED_LEN_BYTE_ARRAY column the pinned reader PANICS ("range end index .. out of
         // range", parquet/src/arrow/array_reader/fixed_len_byte_array.rs) on any dictionary index >= dict_len instead of
-        // returning Err (witness: /work/followup/C08-new-panic-flba-dict-index.replay); the patched inputs of that type are
+        // returning Err (witness: replays/C08-witness-flba-dict-index.replay); the patched inputs of that type are
         // excluded until the finding is recorded, the valid file is still read and compared
         if ty == 3 && std::env::var("C08_INCLUDE_KNOWN").is_err() { continue }
         // sanity: the stream really holds the written indices (up to the dictionary's own order): first value is entry 0
